@@ -71,7 +71,21 @@ pub fn pool() -> Vec<Vec<PathControlPoint>> {
             p(50., 0., None),
             p(100., 0., None),
         ],
+        // the same bezier shape at two origins, with coordinates that are not dyadic: flattening rounds
+        // differently at the two places, so a result carried over from the translate is visible
+        translate(&SHAPE, 0.0, 0.0),
+        translate(&SHAPE, -SHAPE[0].0, -SHAPE[0].1),
     ]
+}
+
+const SHAPE: [(f32, f32); 5] = [(301.37, 187.61), (412.93, 95.18), (188.44, 22.77), (355.09, 301.53), (467.71, 140.26)];
+
+fn translate(shape: &[(f32, f32)], dx: f32, dy: f32) -> Vec<PathControlPoint> {
+    shape
+        .iter()
+        .enumerate()
+        .map(|(i, &(x, y))| p(x + dx, y + dy, (i == 0).then_some(PathType::BEZIER)))
+        .collect()
 }
 
 const LENS: [Option<f64>; 4] = [None, Some(7.5), Some(500.0), Some(0.0)];
